@@ -444,7 +444,12 @@ func (s *BaseNodeService) ProposeSignMessages(dtoMsg *dto.ProposeSignBatchMessag
 		return fmt.Errorf("failed to determine FSM instance state: %w", err)
 	}
 
-	if fsmState != sif.StateSigningIdle {
+	// a batch that was cancelled (failure reports, deadline) leaves the stored round in its cancelled
+	// state: every node restarts the round when it handles the next message, so the next proposal
+	// may be made from there as well as from the idle state
+	if fsmState != sif.StateSigningIdle &&
+		fsmState != sif.StateSigningPartialSignsAwaitCancelledByError &&
+		fsmState != sif.StateSigningPartialSignsAwaitCancelledByTimeout {
 		return fmt.Errorf("required FSM state is %s, but have %s", sif.StateSigningIdle, fsmState)
 	}
 
